@@ -121,7 +121,14 @@ def compile_ast(ast, branches=()):
         return compile_ast(ast[1], tuple(compile_ast(ast[2], branches)))
     if k == "or":
         return compile_ast(ast[1], branches) + compile_ast(ast[2], branches)
-    return [(ast, tuple(branches))]
+    # equal branches are merged, the first of each is kept (expression.py:292)
+    seen, out = set(), []
+    for b in branches:
+        c = canon(b)
+        if c not in seen:
+            seen.add(c)
+            out.append(b)
+    return [(ast, tuple(out))]
 
 
 def canon(g):
@@ -783,6 +790,10 @@ class Runner:
                 sig = SIG_F4_TOP
             else:
                 sig = SIG_F4
+            if not rm and not self._only_sibling_subtrees(graphs, root, hid, after - before):
+                # more than completed sibling subtrees stayed behind: the failing
+                # call's own undo log was not applied
+                sig = "registration-not-rolled-back:own-hooks-left"
             if self.selfreach:
                 sig = SIG_F10
             elif self.shadow_default:
@@ -812,6 +823,20 @@ class Runner:
                 self.hits09.append(_hit("registered-removal-not-found",
                                         "unregistering an active registration raised NotifierNotFound", op=op))
         return "err " + exc_name(exc)
+
+    def _only_sibling_subtrees(self, graphs, root, hid, left):
+        """F4 leaves behind only what completed SIBLING walks registered: whole earlier
+        graphs, and for the last graph nothing the root node itself hooked."""
+        w = self.w
+        allowed = collections.Counter()
+        for g in graphs[:-1]:
+            w.spec_walk(g, w.pool[root], (hid, root), allowed)
+        node, children = graphs[-1]
+        nxt = w.spec_objects(node, w.pool[root]) if children else []
+        for c in children:
+            for y in (nxt or []):
+                w.spec_walk(c, y, (hid, root), allowed)
+        return all(allowed[k] >= n for k, n in left.items())
 
     def _first_graphs_complete(self, graphs, root, hid, before, after):
         """Is what stayed behind exactly the population of a proper prefix of the
@@ -932,8 +957,15 @@ class Runner:
         of paths, maintainers = one per path and child, nothing anywhere else."""
         if not self.check_reach():
             return
-        spec = +self.w.spec_population(self.ledger)
-        if spec != +pop:
+        dead = self.w.dead
+
+        def live(c):
+            # hooks of a collected handler are no longer maintained (nor ever called)
+            return collections.Counter({k: n for k, n in c.items()
+                                        if (k[2] if k[1] == "u" else k[3]) not in dead and n > 0})
+        spec = live(self.w.spec_population(self.ledger))
+        pop = live(pop)
+        if spec != pop:
             extra = sorted(str(k) + "*%d" % n for k, n in (pop - spec).items())[:4]
             missing = sorted(str(k) + "*%d" % n for k, n in (spec - pop).items())[:4]
             self.reach_hit("notifier-population", "notifiers differ from the from-scratch walk: extra %s missing %s" % (
@@ -1032,7 +1064,12 @@ class Runner:
             w.tmp_id = None
             pstr = " ".join(sorted(self.probe()))
             nstr, pop = w.population()
+            n08 = len(self.hits08)
             self.whitebox(pop)
+            if len(self.hits08) > n08 and self.cur_kind in ("obs", "unobs") and status == "ok":
+                # C09 "counted": right after a successful (un)registration the populations
+                # are the from-scratch ones
+                self.hits09.append(dict(self.hits08[-1]))
             if not self.ledger and not self.tainted and not self.selfreach and pop:
                 self.hits09.append(_hit("residual-notifiers-after-balanced-removal",
                                         "every registration was removed but notifiers remain",
